@@ -90,7 +90,38 @@ def run(prop_filter=None, runs=None, tier="quick") -> int:
                 print(p.stdout[-1500:], p.stderr[-1500:])
         finally:
             shutil.rmtree(d, ignore_errors=True)
-    killed = sum(1 for r in results if r["status"] == "killed")
+    # behaviour-preserving refactorings: the checks must stay SILENT on them
+    benign_bad = 0
+    for meta in sorted(glob.glob(os.path.join(VERIF_DIR, "benign", "*", "meta.json"))):
+        with open(meta) as f:
+            m = json.load(f)
+        name = "benign/" + os.path.basename(os.path.dirname(meta))
+        patch = os.path.join(os.path.dirname(meta), "patch.diff")
+        for prop in m["properties"]:
+            if (prop_filter and prop != prop_filter) or prop not in claimed or os.environ.get("VERIF_ONLY_SEEDED") == "1":
+                continue
+            d = _scratch_copy()
+            try:
+                ap = subprocess.run(["git", "apply", "--whitespace=nowarn", patch], cwd=d, capture_output=True, text=True)
+                if ap.returncode != 0:
+                    print(f"{prop} {name}: PATCH DOES NOT APPLY", flush=True)
+                    continue
+                env = dict(os.environ)
+                env["VERIF_REPO"] = d
+                env["VERIF_SCRATCH_OUT"] = os.path.join(d, "_out")
+                env.pop("VERIF_REEXEC", None)
+                t0 = time.time()
+                p = subprocess.run([os.path.join(VERIF_DIR, "check"), prop, "--tier", tier], env=env,
+                                   capture_output=True, text=True, timeout=3600)
+                ok = p.returncode == 0
+                benign_bad += 0 if ok else 1
+                print(f"{prop} {name}: {'SILENT (as it must be)' if ok else 'FALSE ALARM'} ({time.time() - t0:.1f}s)", flush=True)
+                if not ok:
+                    print(p.stdout[-1500:])
+                results.append(dict(property=prop, mutant=name, status="silent" if ok else "false-alarm"))
+            finally:
+                shutil.rmtree(d, ignore_errors=True)
+    killed = sum(1 for r in results if r["status"] in ("killed", "silent"))
     print(f"selftest: {killed}/{len(results)} mutants killed")
     with open(os.path.join(VERIF_DIR, "mutants", "last_selftest.json"), "w") as f:
         json.dump(dict(killed=killed, tried=len(results), results=results), f, indent=1)
